@@ -1209,10 +1209,31 @@ fn c15(idx: usize, ctx: &Ctx, rpt: &mut Report) {
     let dirs = spec.dirs();
     let prefix = if !dirs.is_empty() && idx % 3 != 0 { rng.pick(&dirs).clone() } else { String::new() };
     let path_walk = idx % 5 == 0;
-    let g = if idx % 2 == 0 { (*rng.pick(&["**", "**/*", "*", "*/*", "**/a", "**/*.*", "*/**"])).to_string() } else { walkgen::walk_glob(&mut rng, &spec) };
+    let g = if idx % 2 == 0 { (*rng.pick(&["**", "**/*", "*", "*/*", "**/a", "**/*.*", "*/**", "", "**"])).to_string() } else { walkgen::walk_glob(&mut rng, &spec) };
     let expr = if prefix.is_empty() || g.is_empty() { g.clone() } else { format!("{}/{}", wax::escape(&prefix), g) };
     walkgen::steer(&mut rng, &mut spec, &g, 2);
-    let (depth, window, ctor) = walkgen::depth_behaviour(&mut rng, 5);
+    let prefix_len = if prefix.is_empty() || g.is_empty() { 0 } else { prefix.split('/').count() };
+    if prefix_len > 0 {
+        // Something beneath the prefix at every depth a window could cut.
+        spec.plant_path(&format!("{}/zz/zz/zz/leaf", prefix), false);
+        spec.plant_path(&format!("{}/zz/side", prefix), false);
+    }
+    let (depth, window, ctor) = if prefix_len > 0 && rng.chance(1, 3) {
+        // Windows steered to the prefix: the bounds fall before, on and just after its length.
+        let lo = rng.range(0, prefix_len);
+        let hi = rng.range(prefix_len.saturating_sub(1), prefix_len + 2).max(lo);
+        match rng.below(3) {
+            0 => (wax::walk::DepthMinMax::from_depths_or_max(lo, hi), (lo, Some(hi)), "DepthMinMax::from_depths_or_max(steered)"),
+            1 => match DepthBehavior::bounded(Some(lo), Some(hi)) {
+                Some(d) => (d, (lo, Some(hi)), "DepthBehavior::bounded(min,max)(steered)"),
+                None => (DepthBehavior::Max(wax::walk::DepthMax(hi)), (0, Some(hi)), "DepthMax(steered)"),
+            },
+            _ => (wax::walk::DepthMin::from_min_or_unbounded(lo), (lo, None), "DepthMin::from_min_or_unbounded(steered)"),
+        }
+    }
+    else {
+        walkgen::depth_behaviour(&mut rng, 5)
+    };
     let link = if rng.chance(1, 2) { LinkBehavior::ReadTarget } else { LinkBehavior::ReadFile };
     let behaviour = WalkBehavior { depth, link };
     ctx.begin(idx, &format!("walk {} {:?}", expr, behaviour));
